@@ -658,6 +658,9 @@ impl World for C19 {
     fn variant(&self, base: &ByteScn, sub: u64, _tier: Tier) -> ByteScn {
         variant(base, sub)
     }
+    fn variant_count(&self, base: &ByteScn, _tier: Tier) -> u64 {
+        variant_count(base)
+    }
     fn check(&self, scn: &ByteScn, cov: &mut Cov, prog: &Progress) -> Option<(String, String)> {
         check_one(scn, cov, prog).err()
     }
